@@ -251,3 +251,123 @@ def line(rng, seqid, source, ft, s, e, strand, gkey, gid, tkey, tid, id_first, e
 
 def text_of(m):
     return "\n".join(M.render_line(rec, m["D"]) for rec in m["lines"]) + "\n"
+
+
+# -- seqids with blank-like characters at their edges ---------------------------------------------------------------
+# (name, text): characters that str.strip() removes but that are ordinary content of a tab-separated column.
+# Line terminators (LF, CR) are not among them: they end the line.
+EDGE_BLANKS = [("space", " "), ("two spaces", "  "), ("NBSP U+00A0", "\u00a0"), ("U+3000", "\u3000"), ("form feed", "\f"),
+               ("vertical tab", "\x0b"), ("U+2009", "\u2009"), ("U+0085", "\x85"), ("U+001F", "\x1f")]
+EDGE_WHERE = ["leading", "leading", "trailing", "both ends", "blank only"]
+
+
+def make_edge_seqids(rng, m):
+    """Rewrite the seqid of every line of 1..all genes (all lines carrying that gene id, whatever their seqid was) so that
+    it starts and/or ends with a blank-like character (or consists of one).  Lines of one gene that shared a seqid still
+    share it; two genes that shared 'chr1' may now sit on 'chr1' and ' chr1'.  Returns the list of (where, blank name)."""
+    gkey = m["gkey"]
+    by_gene = {}
+    for rec in m["lines"]:
+        g = [v for k, v in rec["attrs"] if k == gkey]
+        by_gene.setdefault(g[0][0] if g and g[0] else None, []).append(rec)
+    genes = sorted(by_gene, key=repr)
+    rng.shuffle(genes)
+    made = []
+    for gi, g in enumerate(genes):
+        if gi and rng.random() < 0.35:
+            continue
+        where = rng.choice(EDGE_WHERE)
+        name, ch = rng.choice(EDGE_BLANKS)
+        name2, ch2 = rng.choice(EDGE_BLANKS) if rng.random() < 0.3 else (name, ch)
+        deco = {"leading": lambda s: ch + s, "trailing": lambda s: s + ch, "both ends": lambda s: ch + s + ch2,
+                "blank only": lambda s: ch}[where]
+        for rec in by_gene[g]:
+            rec["seqid"] = deco(rec["seqid"])
+        made.append([where, name])
+        if where == "both ends" and name2 != name:
+            made.append([where, name2])
+    m["edge_seqids"] = made
+    return made
+
+
+# -- one transcript_id annotated under two (or three) gene_ids ---------------------------------------------------------
+def shared_model(rng):
+    """
+    A GTF file in which 1-2 transcript ids are annotated under 2-3 gene ids each (the same accession placed at two loci,
+    a read-through transcript listed under both genes): every (shared transcript, gene) combination has at least one
+    subfeature line, and every gene id owns at least one subfeature line (of a transcript of its own or of a shared one),
+    so that nothing has to be derived from nothing.  All genes sharing a transcript lie on one seqid and strand (the
+    statement's "the exons' seqid and strand" stays defined).  Genes may also have ordinary transcripts and a `gene` line
+    of their own; a shared transcript has at most ONE `transcript` line (under one of its genes).  Lines are in generation order: the check draws the
+    line orders.  m["shared"] = {transcript id: [gene ids]}.
+    """
+    D = rng.choice(gtf_points())
+    tkey, gkey, subfeature = rng.choice(KEYSETS)
+    id_first = rng.choice(["g", "g", "t"])
+    gfmt, tfmt = rng.choice(GENE_IDS[:5]), rng.choice(TX_IDS[:5])
+    ngenes = rng.choice([2, 2, 2, 3, 3, 4])
+    seqid, strand, source = rng.choice(SEQIDS), rng.choice("+-"), rng.choice(SOURCES)
+    base = rng.randrange(1, 50)
+    gids = [gfmt % (base + i) for i in range(ngenes)]
+    origin = {g: rng.randrange(1, 100000) for g in gids}
+    if rng.random() < 0.5:      # neighbouring loci (read-through) rather than far-apart copies
+        o = rng.randrange(1, 100000)
+        origin = {g: o + 3000 * i for i, g in enumerate(gids)}
+    span = rng.choice([200, 2000, 50000])
+    others = [t for t in OTHER_TYPES if t != subfeature]
+    lines, shared = [], {}
+    tcount = 0
+
+    def sub(g, tid, n_sub, n_other):
+        out = []
+        for k in range(n_sub):
+            s = origin[g] + rng.randrange(0, span)
+            out.append(line(rng, seqid, source, subfeature, s, s + rng.choice([0, 5, 120, rng.randrange(0, max(1, span // 4))]), strand,
+                            gkey, g, tkey, tid, id_first, extra=[["exon_number", [str(k + 1)]]] if rng.random() < 0.5 else []))
+        for _ in range(n_other):
+            s = max(1, origin[g] + rng.randrange(-span // 2 - 1, span))
+            out.append(line(rng, seqid, source, rng.choice(others), s, s + rng.choice([0, 2, rng.randrange(0, span * 2)]), strand,
+                            gkey, g, tkey, tid, id_first))
+        return out
+
+    for _ in range(rng.choice([1, 1, 2])):
+        tcount += 1
+        tid = tfmt % (base * 10 + tcount)
+        owners = rng.sample(gids, min(ngenes, rng.choice([2, 2, 2, 3])))
+        shared[tid] = owners
+        for g in owners:
+            lines += sub(g, tid, rng.choice([1, 1, 2, 3]), rng.choice([0, 0, 1, 2]))
+        if rng.random() < 0.15:
+            # ONE transcript line of its own, filed under one of the genes (two would be a duplicate id)
+            ss = [(int(r["start"]), int(r["end"])) for r in lines if r["featuretype"] == subfeature and [tkey, [tid]] in r["attrs"]]
+            lines.append(line(rng, seqid, source, "transcript", min(s for s, _ in ss), max(e for _, e in ss), strand, gkey, rng.choice(owners),
+                              tkey, tid, id_first))
+    for g in gids:
+        owns = any(r["featuretype"] == subfeature and [gkey, [g]] in r["attrs"] for r in lines)
+        for k in range(rng.choice([0, 1, 1, 2]) if owns else rng.choice([1, 2])):
+            tcount += 1
+            tid = tfmt % (base * 10 + tcount)
+            n_sub = rng.choice([0, 1, 2, 3]) if owns or k else rng.choice([1, 2, 3])
+            tx = sub(g, tid, n_sub, rng.choice([0, 1, 2]) if n_sub else 1)
+            if rng.random() < 0.2:
+                ss = [(int(r["start"]), int(r["end"])) for r in tx if r["featuretype"] == subfeature] or [(origin[g], origin[g] + span)]
+                tx.append(line(rng, seqid, source, "transcript", min(s for s, _ in ss), max(e for _, e in ss), strand, gkey, g, tkey, tid, id_first))
+            lines += tx
+        if rng.random() < 0.2:
+            ss = [(int(r["start"]), int(r["end"])) for r in lines if r["featuretype"] == subfeature and [gkey, [g]] in r["attrs"]]
+            lines.append(line(rng, seqid, source, "gene", min(s for s, _ in ss), max(e for _, e in ss), strand, gkey, g, None, None, "g"))
+    for n, rec in enumerate(lines):
+        rec["attrs"].append(["tag", ["L%d" % n]])
+    return {"D": D, "tkey": tkey, "gkey": gkey, "subfeature": subfeature, "lines": lines, "shuffle": "drawn by the check",
+            "explicit_mode": "some", "derived_like": False, "shared": shared}
+
+
+def reordered(m, perm):
+    """The model with its lines in the order perm (indices into m["lines"]); the marker attribute is renumbered so that
+    line j of the new file carries tag L<j> (what the check relies on)."""
+    lines = []
+    for j, i in enumerate(perm):
+        rec = dict(m["lines"][i])
+        rec["attrs"] = [list(a) for a in rec["attrs"] if a[0] != "tag"] + [["tag", ["L%d" % j]]]
+        lines.append(rec)
+    return dict(m, lines=lines)
